@@ -36,6 +36,9 @@ def gen_grammar(rng, prio=True, empties=True):
         return gen_stress(rng, prio)
     names = ['start'] + rng.sample(['r1', '_r2', 'r3', 'r4'], rng.randint(1, 3))
     terms = ['A', 'B', '"x"']
+    overlap = rng.random() < 0.25
+    if overlap:
+        terms = terms + ['AB', 'AB']        # a terminal that matches the same text as A and as B: under the dynamic lexers one character, several readings
     lines = []
     for n in names:
         mod = '' if n == 'start' or n.startswith('_') else rng.choice(['', '', '?'])
@@ -53,7 +56,7 @@ def gen_grammar(rng, prio=True, empties=True):
             alts.append(s)
         alts = list(dict.fromkeys(alts))
         lines.append('%s%s%s: %s' % (mod, n, pr, ' | '.join(alts)))
-    lines += ['A%s: "a"' % ('.%d' % rng.randint(1, 2) if prio and rng.random() < 0.2 else ''), 'B: "b"', '%ignore " "']
+    lines += ['A%s: "a"' % ('.%d' % rng.randint(1, 2) if prio and rng.random() < 0.2 else ''), 'B: "b"'] + (['AB: /[ab]/'] if overlap else []) + ['%ignore " "']
     return '\n'.join(lines) + '\n'
 
 
@@ -219,7 +222,12 @@ def _forest_case(args):
         if rec['acyclic']:
             try:
                 with guarded(5):
-                    derivs = oracle_derivs.derivations(rules, toks, 'start')
+                    alt = None
+                    if lexer != 'basic':
+                        import re as _re
+                        cands = [(t_.name, _re.compile(t_.pattern.to_regexp())) for t_ in base.terminals if t_.name not in base.ignore_tokens]
+                        alt = [{n_ for n_, rx in cands if rx.fullmatch(str(tk_))} for tk_ in toks]
+                    derivs = oracle_derivs.derivations(rules, toks, 'start', alt)
                 if len(derivs) > MAX_DERIVS:
                     derivs = None; run['too_many'] = True
             except (Timeout, RecursionError):
@@ -379,6 +387,8 @@ def _forest_case(args):
                 try:
                     with guarded(8):
                         pr = Lark(g, parser='earley', lexer=lexer, ambiguity='resolve', priority=mode, maybe_placeholders=mp)
+                        if lexer == 'basic' and [t_.type for t_ in pr.lex(text)] != [t_.type for t_ in toks]:
+                            continue        # overlapping terminals: priority=invert/None changes the basic lexer's tokenisation, the derivations above are those of another token string
                         try:
                             t = pr.parse(text)
                             raw = shapelib.raw_parse(pr, text)
